@@ -19,6 +19,7 @@ from mc.refmodels import conversions as ref
 
 PROPERTY = "C17"
 LEVEL = "exploration"
+ISOLATE_CASES = True     # each case in its own pristine process: verdicts cannot depend on which case ran before
 ENGINES = ["E1-product-enumeration"]
 TECHNIQUE = ("bounded exhaustive enumeration of ladder products (values x wavelengths x bands x masks x "
              "array shapes x axes) through every converter; algebraic identities between the results")
@@ -91,6 +92,8 @@ def cases(tier):
         yield Case("mag:band=%s" % b, {"kind": "mag", "band": b})
         yield Case("phot:band=%s" % b, {"kind": "phot", "band": b})
     yield Case("photmag", {"kind": "photmag"})
+    for b in BANDS:
+        yield Case("bandhist:first=%s" % b, {"kind": "bandhist", "first": b})
     for lam in sorted(_lams(tier)) + [None]:
         yield Case("layer:lam=%s" % ("default" if lam is None else "%g" % lam), {"kind": "layer", "lam": lam})
         yield Case("slopes:lam=%s" % ("default500" if lam is None else "%g" % lam),
@@ -115,7 +118,45 @@ def _rel(a, b):
     return float(numpy.max(r)) if r.size else 0.0
 
 
+# ----------------------------------------------------------------------------- call histories over the bands
+# (added after a seeded change cached zero points under waveband.upper(): only a history that uses both members
+#  of a case-differing band pair - R then r, I then i - in one process showed it)
+
+_BAND_TABLE = None
+
+
+def _band_values(band):
+    a = _astro()
+    return (float(a.magnitude_to_flux(7.5, band)), float(a.flux_to_magnitude(2.0e5, band)),
+            float(a.photons_per_band(7.5, numpy.ones((2, 2)), 0.5, 0.02, band)))
+
+
+def setup(tier):
+    """per-band reference values, each computed in its own pristine forked process"""
+    global _BAND_TABLE
+    from mc.isolate import isolated_map
+    _BAND_TABLE = dict(zip(BANDS, isolated_map(_band_values, [(b,) for b in BANDS])))
+
+
+def _bandhist(p):
+    """every ordered pair (b1, b2) of bands: all three band-dependent functions for b1, then for b2, in one
+    process (which has also served every earlier pair): every value must equal the pristine per-band value"""
+    o = Out()
+    b1 = p["first"]
+    for b2 in BANDS:
+        for b in (b1, b2, b1):
+            got = _band_values(b)
+            o.stat("lib_calls", 3)
+            for name, g, w in zip(("magnitude_to_flux", "flux_to_magnitude", "photons_per_band"), got, _BAND_TABLE[b]):
+                o.check("band_result_independent_of_history", g == w, sub="%s:%s:after=%s,%s" % (name, b, b1, b2),
+                        detail={"got": g, "pristine": w})
+    o.stat("nontrivial", len(BANDS))
+    return o
+
+
 def evaluate(p):
+    if p["kind"] == "bandhist":
+        return _bandhist(p)
     return {"inv": _inv, "law": _law, "mag": _mag, "phot": _phot, "photmag": _photmag, "layer": _layer,
             "slopes": _slopes, "axis": _axis}[p["kind"]](p)
 
